@@ -681,6 +681,58 @@ def r19k(ctx: Context) -> None:
                 rule.ok(key, f"{what} on the argument's own outcome")
 
 
+def r19l(ctx: Context) -> None:
+    """'All descendants with --recurse' and 'the expansion of a glob': what the operating system lists is what is
+    considered.  The walk's list of sub-directories may not be edited (os.walk descends only into what is left in it),
+    and the paths a glob expands to may not be thinned out before each is handed to the per-path function - a
+    directory that a glob yields contributes its files, a dot-directory is a directory."""
+    prog = ctx.prog
+    rule = ctx.rule("R19l", "the directory walk is not pruned and the expansion of a glob is not filtered", 2)
+    scanner = prog.cls(AFS)
+    walks = 0
+    globs = 0
+    for func in sorted(scanner.methods.values(), key=lambda f: f.qualname):
+        for loop in [n for n in walk_local(func.node) if isinstance(n, (ast.For, ast.comprehension))]:
+            source = loop.iter
+            if isinstance(source, ast.Name):  # a local holding the listing
+                bound = [n.value for n in walk_local(func.node) if isinstance(n, ast.Assign) and any(isinstance(t, ast.Name) and t.id == source.id for t in n.targets)]
+                source = bound[0] if len(bound) == 1 else source
+            calls = [c for c in ast.walk(source) if isinstance(c, ast.Call)]
+            is_walk = any((dotted(c.func) or "") == "os.walk" for c in calls)
+            is_glob = any((dotted(c.func) or "") in ("glob.glob", "glob.iglob") for c in calls)
+            if is_walk and isinstance(loop, ast.For):
+                walks += 1
+                key = func_key(func, loop) + " [walk not pruned]"
+                dirs = loop.target.elts[1] if isinstance(loop.target, ast.Tuple) and len(loop.target.elts) == 3 else None
+                edits = []
+                if isinstance(dirs, ast.Name) and dirs.id != "_":
+                    for node in [n for stmt in loop.body for n in ast.walk(stmt)]:
+                        if isinstance(node, (ast.Assign, ast.AugAssign, ast.Delete)):
+                            targets = node.targets if isinstance(node, (ast.Assign, ast.Delete)) else [node.target]
+                            if any((isinstance(t, ast.Subscript) and isinstance(t.value, ast.Name) and t.value.id == dirs.id) or (isinstance(t, ast.Name) and t.id == dirs.id and isinstance(node, ast.AugAssign)) for t in targets):
+                                edits.append(node)
+                        if isinstance(node, ast.Call) and isinstance(node.func, ast.Attribute) and isinstance(node.func.value, ast.Name) and node.func.value.id == dirs.id \
+                                and node.func.attr in ("remove", "pop", "clear", "sort", "reverse", "insert", "append", "extend"):
+                            edits.append(node)
+                if edits:
+                    rule.fail(key, where(func, edits[0]), f"the walk's list of sub-directories is edited ('{norm(edits[0])[:70]}'): os.walk descends only into what is left in it, so descendants that --recurse promises are never visited")
+                else:
+                    rule.ok(key, "the list of sub-directories is left alone")
+            if is_glob:
+                globs += 1
+                key = func_key(func, loop if isinstance(loop, ast.For) else loop.iter) + " [glob not filtered]"
+                filters = list(loop.ifs) if isinstance(loop, ast.comprehension) else []
+                # a comprehension over the expansion that feeds the loop counts as part of it
+                if isinstance(source, (ast.ListComp, ast.GeneratorExp, ast.SetComp)):
+                    filters += [cond for gen in source.generators for cond in gen.ifs]
+                if filters:
+                    rule.fail(key, where(func, filters[0]), f"the paths a glob expands to are filtered by '{norm(filters[0])[:70]}' before they are handed on: a directory (or whatever else the filter drops) that the pattern matches no longer contributes its files, and a pattern matching only such paths becomes the 'did not match' error")
+                else:
+                    rule.ok(key, "every path of the expansion is handed on")
+    if walks < 1 or globs < 1:
+        raise AnalysisError(f"{walks} directory walk(s) and {globs} glob expansion loop(s) found in the file scanner (1 and 1 confirmed)")
+
+
 def run(ctx: Context) -> None:
     r19a(ctx)
     r19b(ctx)
@@ -694,3 +746,4 @@ def run(ctx: Context) -> None:
     r19i(ctx)
     r19j(ctx)
     r19k(ctx)
+    r19l(ctx)
